@@ -18,6 +18,7 @@ RULE = ("case = random family + type AST x 5 formats x conforming values inside 
         "parse_F(dump_F(REF_ENCODE_F(S,v))); (c) mixin method, Encoder/Decoder object, one-shot function and the codec "
         "objects built with a user default_dialect that sets nothing (merged over the format's own dialect) agree. "
         "distinct_nontrivial = distinct (format, type shape, value repr) triples kept (not discarded).")
+RULE += " Additions: per-class Config.orjson_options (document == orjson.dumps(pre-dump tree, option=declared)); format methods and to_dict/from_dict under one empty call dialect in random order; msgpack codecs with a user dialect taking over bytes."
 ASSUMPTIONS = [
     "the format libraries (json, orjson, PyYAML, msgpack, tomllib/tomli_w) are trusted to render the reference tree",
     "cases outside a format's representable subset are discarded and counted, never judged",
